@@ -146,11 +146,18 @@ func NewJobWithSubGroups(uid string, queue string, preemptible bool, priority in
 
 // NewJobWithTopology is NewJob (preemptible, priority 0) for a PodGroup with a topology constraint.
 func NewJobWithTopology(uid string, queue string, minMember int32, tc enginev2alpha2.TopologyConstraint, vm *resource_info.ResourceVectorMap, tasks ...*pod_info.PodInfo) *podgroup_info.PodGroupInfo {
+	return NewJobWithTopologyAndSubGroups(uid, queue, minMember, tc, nil, vm, tasks...)
+}
+
+// NewJobWithTopologyAndSubGroups: a PodGroup with a workload-level topology constraint and sub-groups
+// that may carry constraints of their own.
+func NewJobWithTopologyAndSubGroups(uid string, queue string, minMember int32, tc enginev2alpha2.TopologyConstraint, subGroups []enginev2alpha2.SubGroup, vm *resource_info.ResourceVectorMap, tasks ...*pod_info.PodInfo) *podgroup_info.PodGroupInfo {
 	j := podgroup_info.NewPodGroupInfoWithVectorMap(common_info.PodGroupID(uid), vm)
 	pg := &enginev2alpha2.PodGroup{ObjectMeta: metav1.ObjectMeta{Name: uid, Namespace: "ns", UID: types.UID(uid)}}
 	pg.Spec.Queue = queue
 	pg.Spec.MinMember = minMember
 	pg.Spec.TopologyConstraint = tc
+	pg.Spec.SubGroups = subGroups
 	j.SetPodGroup(pg)
 	j.Preemptibility = enginev2alpha2.Preemptible
 	for _, t := range tasks {
